@@ -36,7 +36,8 @@ META = {
                     "vendors huawei (CE), arista, cumulus (text generator)"],
     "outside": ["statements with several conditions/actions", "vendors other than huawei/arista/cumulus", "semantic correctness of the emitted "
                 "commands beyond nesting, ACL coverage, reference integrity and error-before-output"],
-    "bounds": {},
+    "bounds": {"quick": "one statement: every (condition, action, result, vendor); two statements: 6 conditions x 5 actions each",
+               "thorough": "two statements: all 33 conditions x 5 actions in both positions"},
 }
 
 # ---------------------------------------------------------------- entities
@@ -450,7 +451,7 @@ def h_one(case: int) -> bool:
 
 
 # two statements: the second varies over a reduced catalogue (shared lists, or_longer overrides of the same list)
-C2 = [0, 2, 4, 26, 28, 29]
+C2 = [0, 2, 4, 26, 28, 29] if rt.TIER == "quick" else list(range(33))
 A2 = [0, 3, 7, 22, 34]
 RAD2 = [len(VENDORS), len(C2), len(A2), len(C2), len(A2)]
 N2 = 1
@@ -493,7 +494,7 @@ def plan(tier):
     q = tier == "quick"
     return [
         dict(name="one-statement", func="h_one", shards=16, timeout=280 if q else 1500),
-        dict(name="two-statements", func="h_two", shards=8, timeout=280 if q else 1500),
+        dict(name="two-statements", func="h_two", shards=8 if q else 16, timeout=280 if q else 2400),
         dict(name="twin", func="h_twin", shards=1, timeout=120, expect="refuted"),
     ]
 
